@@ -23,6 +23,7 @@ structure CliWorld where
   log : List Eff            -- effects so far, in order
   cancelled : Bool          -- the context handed to `Run` was cancelled (link-up event, or the script is over)
   now : Int                 -- the clock (constant during a run: the waits are events)
+  over : Bool := false      -- a wait found the script exhausted: `mclient.Run`'s own context has ended
 
 def CliWorld.emit (w : CliWorld) (e : Eff) : CliWorld := { w with log := w.log ++ [e] }
 
@@ -55,7 +56,7 @@ def cliEnv (route : Bool) : Gen.CliEnv CliWorld where
   AdvanceState := fun _ _ _ w =>
     let p := pop w
     let r := advRes p.1
-    .ok (r.1, { p.2 with cancelled := p.2.cancelled || r.2 })
+    .ok (r.1, { p.2 with cancelled := p.2.cancelled || r.2, over := p.2.over || p.1.isNone })
   Ping := fun _ _ dst w =>
     let w := w.emit (.arpProbe (ipOf dst))
     let p := pop w
@@ -63,7 +64,7 @@ def cliEnv (route : Bool) : Gen.CliEnv CliWorld where
     | some (.arp (some mac)) => .ok ((mac, none), p.2)
     | some (.arp none) => .ok (([], some "timeout"), p.2)
     | some .linkUp => .ok (([], some "context canceled"), { p.2 with cancelled := true })
-    | none => .ok (([], some "context canceled"), { p.2 with cancelled := true })
+    | none => .ok (([], some "context canceled"), { p.2 with cancelled := true, over := true })
     | some _ => .ok (([], some "timeout"), p.2)
   PreCallback := fun c w =>
     match c with
@@ -79,7 +80,7 @@ def cliEnv (route : Bool) : Gen.CliEnv CliWorld where
     match p.1 with
     | some (.ifaceResult true) => .ok (none, p.2)
     | some (.ifaceResult false) => .ok (some "netlink: operation failed", p.2)
-    | none => .ok (none, { p.2 with cancelled := true })
+    | none => .ok (none, { p.2 with cancelled := true, over := true })
     | some _ => .ok (none, p.2)
   Unconfigure := fun _ w => .ok (none, w.emit .unconfigure)
   Up := fun _ w => .ok (none, w.emit .up)
@@ -88,19 +89,21 @@ def cliEnv (route : Bool) : Gen.CliEnv CliWorld where
     let p := pop w
     match p.1 with
     | some .linkUp => .ok ((), { p.2 with cancelled := true })
-    | none => .ok ((), { p.2 with cancelled := true })
+    | none => .ok ((), { p.2 with cancelled := true, over := true })
     | some _ => .ok ((), p.2)
   OpenIPRecvSock := fun _ w => .ok (((), some "not used"), w)
   SockRead := fun _ w => .ok (([], some "not used"), w)
 
 /-- `mclient.Run`'s loop (lib/client/mclient.go; modelled here, 8 lines of Go): run the automaton until its context
-ends; stop if the script is over; otherwise hand it a fresh context through `ResumeClient` and run it again. -/
+ends; stop if `mclient.Run`'s own context has ended (`over`: a wait found the script exhausted — NOT merely "no event
+left": a link-up that is the last event of the script cancels only the inner context, and the client is resumed);
+otherwise hand it a fresh context through `ResumeClient` and run it again. -/
 def mrun (route : Bool) : Nat → Nat → Gen.dclient.dclient → StateT CliWorld R Gen.dclient.dclient
   | 0, _, dx => pure dx
   | outer + 1, inner, dx => do
     let r ← Gen.dclient.dclient_Run (cliEnv route) dx inner
     let w ← get
-    if w.evs.isEmpty then pure r.2
+    if w.over then pure r.2
     else
       let dx' ← Gen.dclient.dclient_ResumeClient (cliEnv route) r.2
       modify fun w => { w with cancelled := false }
